@@ -110,7 +110,7 @@ def judge_consumer(sname, fe, tok, run):
 
 
 # -- producer ---------------------------------------------------------------------------------------------
-KINDS = ['plain', 'params', 'params-empty', 'signed-digest', 'signed-digest-noparam', 'signed-hmac', 'siginfo-only']
+KINDS = ['plain', 'params', 'params-empty', 'signed-digest', 'signed-digest-noparam', 'signed-hmac', 'signed-null', 'signed-ed25519', 'siginfo-only']
 DIGESTS = ['ok', 'flip', 'flip-param', 'absent', 'long']
 
 
@@ -128,6 +128,14 @@ def make_incoming(kind, digest):
         w = enc.make_interest('/p/x', ip, None, DigestSha256Signer(for_interest=True))
     elif kind == 'signed-hmac':
         w = enc.make_interest('/p/x', ip, b'abc', HmacSha256Signer('/k', b'key'))
+    elif kind == 'signed-null':
+        # signature type 200 with an empty value (what NullSigner writes): a signed Interest like any other, the validator decides
+        from ndn.security import NullSigner
+        w = enc.make_interest('/p/x', ip, b'abc', NullSigner())
+    elif kind == 'signed-ed25519':
+        from ndn.security import Ed25519Signer
+        from mc.seams import key_der
+        w = enc.make_interest('/p/x', ip, b'abc', Ed25519Signer('/k/ed/KEY/1', key_der('ed25519_0')))
     elif kind == 'signed-no-appparam':
         # a signed Interest from which the ApplicationParameters element was cut out (lengths adjusted): the digest component in the
         # name cannot be right for what is left
